@@ -2,6 +2,8 @@ package sym
 
 import (
 	"fmt"
+	"os"
+	"runtime/debug"
 	"sort"
 	"sync"
 	"time"
@@ -29,6 +31,7 @@ type Config struct {
 	Deadline time.Time
 	Replay   []Decision // if set: run exactly this one path
 	NoMerge  bool
+	Fixed    map[string]string
 }
 
 type PathSummary struct {
@@ -122,6 +125,7 @@ func Explore(cfg Config) *Report {
 			defer s.Close()
 			in := NewInterp(cfg.Prog, cfg.Scope)
 			in.NoMerge = cfg.NoMerge
+			in.Fixed = cfg.Fixed
 			if cfg.Limits.MaxSteps > 0 {
 				in.Limits = cfg.Limits
 			}
@@ -317,6 +321,9 @@ func runPath(in *Interp, s *smt.Solver, cfg Config, ps *PathState) (solverBroken
 			default:
 				ps.End = "engine-error"
 				ps.EndDetail = fmt.Sprint(r)
+				if os.Getenv("GOSYM_TRACE") != "" {
+					fmt.Fprintf(os.Stderr, "engine error: %v\n%s\n", r, debug.Stack())
+				}
 				solverBroken = true
 			}
 		}
